@@ -71,6 +71,12 @@ class MySQLQueryBuilder(QueryBuilder):
         ctx = ctx or MySQLQuery.SQL_CONTEXT
         querystring = super().get_sql(ctx)
         if querystring and self._update_table:
+            # same qualification as the rest of the statement (joins / UPDATE..FROM / foreign tables)
+            ctx = ctx.copy(
+                with_namespace=bool(self._joins or self._from or self._foreign_table),
+                with_alias=False,
+                subquery=True,
+            )
             if self._orderbys:
                 querystring += self._orderby_sql(ctx)
             if self._limit:
